@@ -158,6 +158,11 @@ def rule_r1(ctx):
             n += 1
             if a.func.qual in allowed:
                 ctx.r.ok(rid, "writer of %s: %s" % (attr, a.func.qual), a.loc)
+            elif a.kind == "mutate" and isinstance(a.stmt, ast.Expr) and isinstance(a.stmt.value, ast.Call) and isinstance(a.stmt.value.func, ast.Attribute) \
+                    and a.stmt.value.func.attr == "append" and len(a.stmt.value.args) == 1 and isinstance(a.stmt.value.args[0], ast.Tuple) \
+                    and all(isinstance(e, ast.Constant) and isinstance(e.value, str) and "\r" not in e.value and "\n" not in e.value for e in a.stmt.value.args[0].elts):
+                # a server-side helper adding one of the server's own constant fields: nothing of the application in it
+                ctx.r.ok(rid, "writer of %s: %s appends a constant server field %s" % (attr, a.func.qual, norm(a.stmt.value.args[0])), a.loc)
             else:
                 ctx.r.violation(rid, key_of(a.func, a.stmt, "unknown-head-writer::" + attr), "%s writes the response %s outside the analysed writers" % (a.func.qual, attr), a.loc)
     ctx.r.floor(rid, n, 8, "writers of status / response_headers")
